@@ -1,7 +1,9 @@
 import PwVerif.Model.ExecFin
 import PwVerif.Model.ExecNest
+import PwVerif.Model.ExecFine
+import PwVerif.Model.FlowFail
 import PwVerif.Model.Proto
-open PwVerif PwVerif.Exec PwVerif.Proto PwVerif.ExecNest
+open PwVerif PwVerif.Exec PwVerif.Proto PwVerif.ExecNest PwVerif.ExecFine
 
 /-!
 Driver of C06. Flat ops (`n … run`) as in Driver/C01 (same canonical scheduler, four Cfg variants);
@@ -90,6 +92,179 @@ def parseTok (w : String) : Option Tok :=
     | some h, some k => some (.at h k)
     | _, _ => none
   | _ => none
+
+
+/-! ### fine part (as Driver/C01) -/
+
+/-- fine schedule token: at main-thread schedule point `p` (or late = after the run returned) the
+first / second half of the callback of `k` runs -/
+structure FTok where
+  p : Option Nat
+  first : Bool
+  k : Nat
+
+/-- apply all tokens scheduled for point `p` -/
+def applyToks (cfg : Cfg) (fc : FCfg) (d : Dag) (f : F) (p : Option Nat) :
+    List FTok → Option (F × List FTok × Nat)
+  | [] => some (f, [], 0)
+  | t :: ts =>
+    if t.p = p then
+      match stepF cfg fc d f (if t.first then .cbFirst t.k else .cbSecond t.k) with
+      | some f' => (applyToks cfg fc d f' p ts).map fun (g, r, n) => (g, r, n + 1)
+      | none => none
+    else some (f, t :: ts, 0)
+
+/-- the canonical main thread (start all starters, drain the queue, idle, exit) with the recorded
+callback halves injected at the main thread's schedule points: after every emission made on the main
+thread (a local child completed) and at every idle `sleep` -/
+def driveF (cfg : Cfg) (fc : FCfg) (d : Dag) : Nat → F → List FTok → Nat → F × String
+  | 0, f, _, _ => (f, "fuel")
+  | fuel + 1, f, toks, p =>
+    let point (f' : F) (grew : Bool) : F × String :=
+      if grew then
+        match applyToks cfg fc d f' (some p) toks with
+        | some (g, rest, _) => driveF cfg fc d fuel g rest (p + 1)
+        | none => (f', s!"stuck-token-at-{p}")
+      else driveF cfg fc d fuel f' toks p
+    match f.core.phase with
+    | .exited =>
+      match applyToks cfg fc d f none toks with
+      | some (g, [], _) => (g, "exited")
+      | some (g, _, _) => (g, "tokens-left")
+      | none => (f, "stuck-late-token")
+    | .aborted => (f, "aborted")
+    | .run (_ :: _) =>
+      match stepF cfg fc d f .start with
+      | some f' => point f' (f'.core.doneLog.length > f.core.doneLog.length)
+      | none => (f, "stuck-start")
+    | .run [] =>
+      match f.core.queue with
+      | _ :: _ =>
+        match stepF cfg fc d f .deliver with
+        | some f' => point f' (f'.core.doneLog.length > f.core.doneLog.length)
+        | none => (f, "stuck-deliver")
+      | [] =>
+        match visRunning fc f with
+        | [] =>
+          match stepF cfg fc d f .exit with
+          | some f' => driveF cfg fc d fuel f' toks p
+          | none => (f, "stuck-exit")
+        | _ :: _ =>
+          match applyToks cfg fc d f (some p) toks with
+          | some (g, rest, n) => if n = 0 then (f, s!"stuck-idle-at-{p}") else driveF cfg fc d fuel g rest (p + 1)
+          | none => (f, s!"stuck-token-at-{p}")
+
+def sortNats (l : List Nat) : List Nat := (l.toArray.qsort (· < ·)).toList
+
+def reportF (tag : String) (fd : FinDag) (fc : FCfg) (f : F) (fin : String) : List String :=
+  let ids := List.range fd.n
+  let s := f.core
+  [ s!"{tag} end {fin}",
+    s!"{tag} exec {showNats s.execLog}",
+    s!"{tag} doneset {showNats (sortNats s.doneLog)}",
+    s!"{tag} st " ++ " ".intercalate (ids.map fun i => s!"{i}:{showSt (s.st i)}"),
+    s!"{tag} calls " ++ " ".intercalate (ids.map fun i => s!"{i}:{s.calls i}"),
+    s!"{tag} out " ++ " ".intercalate (ids.map fun i => s!"{i}:{showVal (s.out i)}"),
+    s!"{tag} running {showNats (sortNats (visRunning fc f))}",
+    s!"{tag} late {showNats f.late}" ]
+
+def parseFTok (w : String) : Option FTok :=
+  match w.splitOn ":" with
+  | [p, h, k] =>
+    let first? := if h = "F" then some true else if h = "T" then some false else none
+    match first?, k.toNat? with
+    | some b, some k =>
+      if p = "L" then some { p := none, first := b, k := k }
+      else p.toNat?.map fun p => { p := some p, first := b, k := k }
+    | _, _ => none
+  | _ => none
+
+
+/-- fine report with the error side: what the composite has collected, whether it raises -/
+def reportFE (tag : String) (fd : FinDag) (fc : FCfg) (f : F) (fin : String) : List String :=
+  reportF tag fd fc f fin ++
+    [ s!"{tag} outcome {if f.core.errs.isEmpty then "ok" else "failedchild"}",
+      s!"{tag} errs {showNats (sortNats f.core.errs)}",
+      s!"{tag} mid {showNats (sortNats f.mid)}" ]
+
+
+/-! ### hand-wired flows (Model/FlowFail.lean on Signal.compositeRun) -/
+
+structure FlowD where
+  n : Nat := 0
+  ifs : List (Nat × Bool) := []          -- `If` children and their constant condition
+  conns : List (Nat × List Nat) := []    -- emitting channel ↦ receivers (their `run` input), in list order
+  starters : List Nat := []
+  fails : List Nat := []
+  pre : Bool := false
+
+def FlowD.graph (f : FlowD) : Signal.Graph :=
+  { conns := fun s => match f.conns.find? (fun p => p.1 == s) with
+      | some p => p.2.map fun r => ({ node := r, acc := false } : Signal.Recv)
+      | none => [],
+    accConns := fun _ => [], lab := fun s => s, starters := f.starters, sigs := f.conns.map (·.1) }
+
+def FlowD.nodes (f : FlowD) (failing : Bool) : Nat → Signal.Node := fun i =>
+  let failAt := if failing && f.fails.contains i then (List.range 400).map (· + 1) else []
+  match f.ifs.find? (fun p => p.1 == i) with
+  | some p => { kind := .ifk, slots := [{ own := .bool p.2, conns := [] }], useCache := false, failAt := failAt }
+  | none => { kind := .term i, slots := [], useCache := false, failAt := failAt }
+
+def runFlow (f : FlowD) : List String :=
+  let g := f.graph
+  let exc : Nat → Nat → (Nat × Bool) := fun i _ => (i, true)
+  let refusal : Nat → (Nat × Bool) := fun i => (i, false)
+  let st0 : Signal.Store :=
+    if f.pre then
+      ((Signal.compositeRun (FlowFail.flowSem true (f.nodes false) exc refusal) g 4000
+        (Signal.S.init (FlowFail.FStore.init Signal.Store.init) (fun _ => []))).store).st
+    else Signal.Store.init
+  let s := Signal.compositeRun (FlowFail.flowSem true (f.nodes true) exc refusal) g 4000
+    (Signal.S.init (FlowFail.FStore.init st0) (fun _ => []))
+  let fs := s.store
+  let ids := List.range f.n
+  let showE (e : Nat × Bool) : String := if e.2 then s!"orig:{e.1}" else s!"refusal:{e.1}"
+  let seen := match FlowFail.seen fs.book with
+    | .nothing => "-"
+    | .failedChild (some e) => "fc " ++ showE e
+    | .failedChild none => "fc none"
+  [ s!"W exec {showNats (fs.st.execLog.drop st0.execLog.length)}",
+    s!"W done {showNats (fs.st.doneLog.drop st0.doneLog.length)}",
+    s!"W failed {showNats (ids.filter fun i => fs.st.failed i)}",
+    "W collect " ++ " ".intercalate ((fs.log.filter (·.raised)).map fun en =>
+      s!"{en.child}:{if en.started then "run" else "refused"}"),
+    "W truth " ++ " ".intercalate ((f.ifs.map (·.1)).map fun i => s!"{i}:{showVal' (fs.st.out i)}"),
+    s!"W seen {seen}",
+    s!"W queue {s.queue.length}" ]
+where
+  showVal' : Signal.Val → String
+    | .bool true => "T" | .bool false => "F" | .nd => "ND" | _ => "?"
+
+/-! ### kinds of raised objects × paths (Model/ExecNest.lean `propagate`) -/
+
+def showLStat : LStat → String
+  | .failed => "failed" | .leftRunning => "leftRunning" | .falselyDone => "clean" | .fine => "clean"
+
+def showKind : ExecNest.Kind → String
+  | .exception => "exception" | .keyboardInterrupt => "ki" | .otherBase => "base"
+
+def parseKind : String → Option ExecNest.Kind
+  | "exception" => some .exception | "ki" => some .keyboardInterrupt | "base" => some .otherBase | _ => none
+
+def ktabReport (tag : String) (c : KCfg) (k : ExecNest.Kind) (execs : List Bool) : List String :=
+  let o := propagate c k execs
+  let caller := match o.hand.caller with
+    | .raw k => s!"raw:{showKind k}"
+    | .chain k n => s!"chain:{showKind k}:{n}"
+    | .nothing => "nothing"
+  -- the sibling downstream of the path child of every composite runs iff that child "completed"
+  let down := (o.stats.dropLast).map fun st => match st with
+    | .falselyDone => "1" | .fine => "1" | _ => "0"
+  [ s!"K {tag} stat " ++ " ".intercalate (o.stats.map showLStat),
+    s!"K {tag} aborted " ++ " ".intercalate (o.aborted.map fun b => if b then "1" else "0"),
+    s!"K {tag} down " ++ " ".intercalate down,
+    s!"K {tag} caller {caller}",
+    s!"K {tag} recovery {if o.stats.getLast? = some LStat.failed then "yes" else "no"}" ]
 
 
 /-! ### nested part -/
@@ -268,6 +443,8 @@ structure DSt where
   descs : List CDesc := []
   cur : Option Path := none
   nsched : List NTok := []
+  fsched : List FTok := []
+  flow : FlowD := {}
 
 def DSt.init : DSt :=
   { f := { n := 0, slots := [], down := [], starters := [], onExec := [], fails := [], rank := [] }, sched := [] }
@@ -342,6 +519,35 @@ def step' (s : DSt) (ws : List String) : DSt × List String :=
       let (st, fin) := drive c d fuel (init d) s.sched 0
       (t, c, st, fin)
     (s, [s!"wf {s.f.check}"] ++ (results.map fun (t, _, st, fin) => report t s.f st fin).flatten)
+  | "fsched" :: ts => match ts.mapM parseFTok with
+    | some ts => ({ s with fsched := ts }, [])
+    | none => (s, ["bad-op"])
+  | ["frun"] =>
+    let d := s.f.toDag
+    let fuel := 8 * (s.f.n + 2) * (s.f.n + 2) + 32
+    let (st, fin) := driveF Cfg.repaired FCfg.repaired d fuel (initF d) s.fsched 0
+    (s, [s!"wf {s.f.check}"] ++ reportFE "Fr" s.f FCfg.repaired st fin)
+  | ["wn", n] => match n.toNat? with
+    | some n => ({ s with flow := { s.flow with n := n } }, [])
+    | none => (s, ["bad-op"])
+  | ["wif", i, b] => match i.toNat?, b with
+    | some i, "1" => ({ s with flow := { s.flow with ifs := s.flow.ifs ++ [(i, true)] } }, [])
+    | some i, "0" => ({ s with flow := { s.flow with ifs := s.flow.ifs ++ [(i, false)] } }, [])
+    | _, _ => (s, ["bad-op"])
+  | "wconn" :: e :: rs => match e.toNat?, nats rs with
+    | some e, some rs => ({ s with flow := { s.flow with conns := s.flow.conns ++ [(e, rs)] } }, [])
+    | _, _ => (s, ["bad-op"])
+  | "wstarters" :: is => match nats is with
+    | some is => ({ s with flow := { s.flow with starters := is } }, [])
+    | none => (s, ["bad-op"])
+  | "wfails" :: is => match nats is with
+    | some is => ({ s with flow := { s.flow with fails := is } }, [])
+    | none => (s, ["bad-op"])
+  | ["wpre"] => ({ s with flow := { s.flow with pre := true } }, [])
+  | ["wrun"] => (s, runFlow s.flow)
+  | "ktab" :: k :: es => match parseKind k, es.mapM (fun e => if e = "1" then some true else if e = "0" then some false else none) with
+    | some k, some es => (s, ktabReport "H" KCfg.head k es ++ ktabReport "P" KCfg.proposed k es)
+    | _, _ => (s, ["bad-op"])
   | ["nrun"] =>
     let total := (s.descs.map (·.f.n)).sum
     let t0 := build s.descs 16 []
